@@ -18,6 +18,9 @@ CHECKS = {
  "C02": dict(level="exploration", tech="property-based testing over generated request-level schedules of concurrent syncs (deterministic cooperative scheduler) with chain-replay oracle",
    text="Generated interleavings, at single-server-request granularity, of 1-4 concurrent Replica::sync calls after generated prior histories; every sync must be Ok, replica invariant right after each racing sync, convergence to the chain replay, nothing sent twice.",
    note="Server requests are atomic (correct server); only server requests are scheduling points (in-memory storage).", ref="4/C02"),
+ "C03": dict(level="exploration", tech="exhaustive enumeration of the pair conflict space + property-based sampling of triples; rule oracle from the docs + metamorphic relation over all sync-order permutations",
+   text="All pairs of single edits x value relation x timestamp relation x base state x causal follow-up are enumerated exhaustively and run in both sync orders; 2-3 replica scenarios with longer edit lists are sampled and run in all permutations. Oracle: documented winner where the rules determine one, otherwise membership + agreement; outcome equal across all sync orders; chain replay.",
+   note="Rule oracle deliberately silent on ties with different values and on repeated updates of one property on one replica (not determined by the docs).", ref="4/C03"),
  "C12": dict(level="exploration", tech="property-based testing: generated histories with Unicode content and urgency scripts; independent snapshot decoder vs. chain replay at the snapshot's version",
    text="Every snapshot the harness server receives is decoded independently (zlib+JSON) and compared with the reference replay of the chain up to exactly its version; snapshots only directly after an accepted version whose urgency met the threshold; fresh replicas from snapshot + later versions equal the full replay; non-empty replicas never take over an offered snapshot.",
    note="Plaintext observed at the Server trait boundary; bounded histories.", ref="4/C12"),
